@@ -147,10 +147,10 @@ theorem upperC_ne_quote (ch : Nat) (h : ch ≠ 34) : upperC ch ≠ 34 := by
   rw [Ne, C17.upperC_quote_iff]; exact h
 
 theorem special_fixed (ch : Nat) (h : isSpecial ch = true) : upperC ch = ch ∧ ch < 128 ∧ ch ≠ 34 := by
-  have : Gen.Tokens.specialChars = [46, 44, 40, 41, 58, 32] := C13.special_chars
+  have : Gen.Tokens.specialChars = [46, 44, 40, 41, 58, 59, 32] := C13.special_chars
   simp only [isSpecial, this, List.contains_eq_mem, List.mem_cons, List.mem_singleton, List.not_mem_nil, or_false,
     decide_eq_true_eq] at h
-  rcases h with h | h | h | h | h | h <;> subst h <;> decide
+  rcases h with h | h | h | h | h | h | h <;> subst h <;> decide
 
 /-- invariant of the character loop: `p` is the part of the line already consumed -/
 def Inv (st : Ctx × Bool) (p : Str) : Prop :=
